@@ -47,6 +47,7 @@ CONSTANTS MaxAtoms,   \* length bound (atoms) of the focused name
           NFields,    \* set of field counts explored
           Pairs,      \* also two single-atom foci in one line
           Lenient,    \* also the constructs the rules leave open (see above)
+          SeqDense,   \* rows of the dense first request of the two-request sequence (0 = no sequence)
           Emit
 
 Tok(c, t) == [c |-> c, t |-> t]
@@ -137,7 +138,7 @@ FocusPoints ==
     UNION { UNION { UNION {
         { [fam |-> "focus", nt |-> nt, nf |-> nf, ctx |-> ctx,
            foci |-> << [pos |-> pos, atoms |-> a, sym |-> PX] >>,
-           val |-> [c |-> "none", t |-> ""], vfield |-> 0,
+           val |-> [c |-> "none", t |-> ""], vfield |-> 0, req |-> 0, copy |-> 0,
            ts |-> [present |-> hasTs, prec |-> "ns", neg |-> FALSE, digits |-> TsTyp]]
           : a \in UNION {AtomSeqs(pos.sec, n) : n \in 1..MaxAtoms} }
         : pos \in Positions(nt, nf) }
@@ -149,7 +150,7 @@ PairPoints ==
     UNION { UNION {
         { [fam |-> "pair", nt |-> nt, nf |-> nf, ctx |-> "num",
            foci |-> << [pos |-> pp[1], atoms |-> <<a1>>, sym |-> PX], [pos |-> pp[2], atoms |-> <<a2>>, sym |-> PY] >>,
-           val |-> [c |-> "none", t |-> ""], vfield |-> 0,
+           val |-> [c |-> "none", t |-> ""], vfield |-> 0, req |-> 0, copy |-> 0,
            ts |-> [present |-> TRUE, prec |-> "ns", neg |-> FALSE, digits |-> TsTyp]]
           : <<a1, a2>> \in AtomKinds(pp[1].sec) \X AtomKinds(pp[2].sec) }
         : pp \in {q \in Positions(nt, nf) \X Positions(nt, nf) : PosRank(q[1]) < PosRank(q[2])} }
@@ -157,17 +158,33 @@ PairPoints ==
 
 ValuePoints ==
     { [fam |-> "value", nt |-> 1, nf |-> nf, ctx |-> "num", foci |-> <<>>,
-       val |-> v, vfield |-> j,
+       val |-> v, vfield |-> j, req |-> 0, copy |-> 0,
        ts |-> [present |-> hasTs, prec |-> "ns", neg |-> FALSE, digits |-> TsTyp]]
       : v \in Values, nf \in {1, 2}, j \in {1, 2}, hasTs \in BOOLEAN } \ {x \in {} : TRUE}
 
 TsPoints ==
     UNION { UNION {
         { [fam |-> "ts", nt |-> 1, nf |-> 1, ctx |-> "num", foci |-> <<>>,
-           val |-> [c |-> "none", t |-> ""], vfield |-> 0,
+           val |-> [c |-> "none", t |-> ""], vfield |-> 0, req |-> 0, copy |-> 0,
            ts |-> [present |-> TRUE, prec |-> prec, neg |-> neg, digits |-> d]]
           : d \in TsMags(prec, neg) }
         : neg \in BOOLEAN } : prec \in Precisions }
+
+\* sequence dimension (C01 quantifies over batches; arc's handler is long-lived): two consecutive
+\* requests to one handler instance for ONE measurement.  Request 1 is dense -- SeqDense points that
+\* all carry both tags and both fields, with distinctive values -- request 2 is sparse: every
+\* combination of 0-2 tags x 1-2 fields x timestamp yes/no, so that columns K1, K2, F2 have cells no
+\* point of request 2 sets.  A stored value in such a cell (left over from request 1) is a phantom
+\* tag/field: the point is not stored "with exactly the tag keys/values and field keys/values".
+SeqPoints ==
+    { [fam |-> "seq", nt |-> 2, nf |-> 2, ctx |-> "num", foci |-> <<>>,
+       val |-> [c |-> "none", t |-> ""], vfield |-> 0, req |-> 1, copy |-> k,
+       ts |-> [present |-> TRUE, prec |-> "ns", neg |-> FALSE, digits |-> TsTyp]] : k \in 1..SeqDense }
+    \cup
+    { [fam |-> "seq", nt |-> nt, nf |-> nf, ctx |-> "num", foci |-> <<>>,
+       val |-> [c |-> "none", t |-> ""], vfield |-> 0, req |-> 2, copy |-> 1,
+       ts |-> [present |-> hasTs, prec |-> "ns", neg |-> FALSE, digits |-> TsTyp]]
+      : nt \in 0..2, nf \in 1..2, hasTs \in BOOLEAN }
 
 FocusAt(pt, sec, i) == {k \in 1..Len(pt.foci) : pt.foci[k].pos.sec = sec /\ pt.foci[k].pos.i = i}
 
@@ -236,7 +253,7 @@ HasDbl(pt) == \E k \in 1..Len(pt.foci) : \E n \in 1..Len(pt.foci[k].atoms) : pt.
 IsWeak(pt) == HasDbl(pt) /\ \A k \in 1..Len(pt.foci) : \A n \in 1..Len(pt.foci[k].atoms) :
                    pt.foci[k].atoms[n].m = "keep" => pt.foci[k].atoms[n].c = "p"
 
-Points == {p \in FocusPoints \cup PairPoints \cup ValuePoints \cup TsPoints : DistinctKeys(p) /\ p.vfield <= p.nf}
+Points == {p \in FocusPoints \cup PairPoints \cup ValuePoints \cup TsPoints \cup SeqPoints : DistinctKeys(p) /\ p.vfield <= p.nf}
 
 -----------------------------------------------------------------------------
 \* ---- the reference lexer ----
@@ -354,7 +371,7 @@ Deterministic ==
 
 EmitInv ==
     (Emit /\ pc = "done") =>
-        PrintT(<<"TRACE", ToJson([fam |-> pt.fam, strict |-> IsStrict(pt), weak |-> IsWeak(pt),
+        PrintT(<<"TRACE", ToJson([fam |-> pt.fam, req |-> pt.req, copy |-> pt.copy, strict |-> IsStrict(pt), weak |-> IsWeak(pt),
                                   foci |-> [k \in 1..Len(pt.foci) |->
                                               [sec |-> pt.foci[k].pos.sec, i |-> pt.foci[k].pos.i,
                                                atoms |-> pt.foci[k].atoms]],
